@@ -3,7 +3,7 @@
     [conn es] is the equivalence closure of the list of union requests [es]; [reach n es s] says that
     the DSU value [s] is what some history of calls produces, where [n] is the current element count
     and [es] the union requests made since the last reset (or since [new]). *)
-From Coq Require Import List Arith Bool.
+From Coq Require Import List Arith NArith Bool.
 From RlibV Require Import C05.Model.
 Import ListNotations.
 
@@ -18,7 +18,7 @@ Definition class_card (n : nat) (es : list (nat * nat)) (v k : nat) : Prop :=
   exists l, NoDup l /\ (forall x, In x l <-> x < n /\ conn es v x) /\ length l = k.
 
 (** element count and union requests after a call that did not panic *)
-Definition ghost_n (n : nat) (o : op) : nat := match o with Reset m => m | _ => n end.
+Definition ghost_n (n : nat) (o : op) : nat := match o with Reset m => N.to_nat m | _ => n end.
 Definition ghost_es (es : list (nat * nat)) (o : op) : list (nat * nat) :=
   match o with Un u v => es ++ [(u, v)] | Reset _ => [] | _ => es end.
 
@@ -85,12 +85,13 @@ Inductive chain (pa : list nat) : nat -> nat -> nat -> Prop :=
 Definition par_val (s : dsu) (v : nat) : option nat :=
   match par s v with Ok (_, r) => Some r | _ => None end.
 
-(** is every index of the call below the element count? (a call with an index out of range panics) *)
+(** is every index of the call below the element count, and does the buffer a reset asks for fit into isize::MAX
+    bytes? (a call with an index out of range panics; so does a reset whose request is refused) *)
 Definition in_range (n : nat) (o : op) : bool :=
   match o with
   | Un u v | Check u v => (u <? n) && (v <? n)
   | Par v | Size v => v <? n
-  | Reset _ => true
+  | Reset m => negb (alloc_overflow m)
   end.
 
 (** several live copies: what [mstep] can produce from a single fresh value *)
